@@ -169,6 +169,10 @@ impl Serialize for PacketHeader {
             }
             Self::Old { header, length } => match length {
                 PacketLength::Fixed(len) => {
+                    // The length-type bits have to describe the length octets that are written
+                    // below, even if the header was read from a non minimal encoding.
+                    let mut header = *header;
+                    header.set_length_type(old_fixed_type(*len));
                     writer.write_u8(header.into_bits())?;
                     if *len < 256 {
                         // one octet
